@@ -21,6 +21,7 @@ the hex text, so that the empty string is visible.
                           pg.quote_literal pg.quote_e_literal pg.quote_ident
                           pg.quote_ident(column)
   B <hex bytes>           visit_BytesConstant, quote_bytea_literal
+  N <hex name> <hex hash> <prefix_length>   edgedb_name_to_pg_name; `hash` = base64(md5(name)) without `=`
   L <hex text>            Lex.lexOne ∘ Lex.skipWs (as `Tokenizer::new` + `next`): `ok <kind> <valkind> =<val> <consumed>` | `err <class>`
   PS|PE|PI|PB <hex text>  PgLex.lexStd / lexEsc / lexIdent / lexByteaLit
 Malformed lines answer `bad-op`.
@@ -120,6 +121,13 @@ def step (st : DS) (line : String) : DS × String :=
     match unhexB h with
     | some b => (st, fld (Quote.ppBytes b) ++ " " ++ fld (Quote.pgQuoteBytea b))
     | none => (st, "bad-op")
+  | ["N", h, hh, pl] =>
+    match unhexStr h, unhexStr hh, pl.toNat? with
+    | some s, some hs, some n =>
+      match Quote.edgedbNameToPgName (fun _ => hs) s n with
+      | some r => (st, fld r)
+      | none => (st, "!ValueError")
+    | _, _, _ => (st, "bad-op")
   | ["L", h] =>
     match unhexStr h with
     | some s =>
